@@ -54,6 +54,15 @@ func genC06(r *kernel.Rand, tier string) *kernel.Scenario {
 			c["answer_ctx_max_us"] = int64([]int{500, 3000, 8000}[r.Intn(3)])
 			c["async_bus"], c["bus_ack_max_us"] = 0, 3000
 		}
+		if r.Bool(0.25) {
+			// no loss, no duplication: the deliveries go through the library's
+			// own local bus, and handlers answer with nearly expired contexts
+			c["real_localbus"], c["drop_pm"], c["dup_pm"] = 1, 0, 0
+			c["answer_ctx_max_us"] = int64([]int{500, 3000, 8000}[r.Intn(3)])
+			c["ctx_ms"] = int64([]int{50, 2000}[r.Intn(2)])
+		}
+	} else if mode == 0 && r.Bool(0.15) {
+		c["real_localbus"] = 1
 	}
 	c["yield_pct"] = int64([]int{0, 30, 100}[r.Intn(3)])
 	c["long_yields"] = int64(r.Intn(2))
